@@ -66,6 +66,7 @@ func LoadProgram(repo string, patterns []string, overlay map[string][]byte) (*Pr
 		p.allPkgs[pk.PkgPath] = pk
 		if _, ok := p.pkgByName[pk.Name]; !ok || strings.HasPrefix(pk.PkgPath, modPath) {
 			p.pkgByName[pk.Name] = pk.Types
+			pkgPathByName[pk.Name] = pk.PkgPath
 		}
 	})
 	// contract files of every loaded package in the module
@@ -81,7 +82,7 @@ func LoadProgram(repo string, patterns []string, overlay map[string][]byte) (*Pr
 		}
 		for _, f := range pk.GoFiles {
 			base := filepath.Base(f)
-			if strings.HasPrefix(base, "zz_verif_contracts") && strings.HasSuffix(base, ".go") {
+			if (strings.HasPrefix(base, "zz_verif_contracts") || strings.HasPrefix(base, "zz_verif_lemmas")) && strings.HasSuffix(base, ".go") {
 				cf, err := ParseContractFile(f, path)
 				if err != nil {
 					return nil, err
@@ -110,11 +111,26 @@ func LoadProgram(repo string, patterns []string, overlay map[string][]byte) (*Pr
 	return p, nil
 }
 
-var methKeyRe = regexp.MustCompile(`^\((\*?)([A-Za-z_][A-Za-z0-9_]*)(\[[^\]]*\])?\)\.(.+)$`)
+var methKeyRe = regexp.MustCompile(`^\((\*?)(?:([A-Za-z_][A-Za-z0-9_]*)\.)?([A-Za-z_][A-Za-z0-9_]*)(\[[^\]]*\])?\)\.(.+)$`)
+var funcKeyRe = regexp.MustCompile(`^([A-Za-z_][A-Za-z0-9_]*)\.([A-Za-z_][A-Za-z0-9_$]*)$`)
+
+// pkgPathByName resolves a package qualifier used in a contract key; set by LoadProgram.
+var pkgPathByName = map[string]string{}
 
 func fullKey(pkgPath, key string) string {
 	if m := methKeyRe.FindStringSubmatch(key); m != nil {
-		return "(" + m[1] + pkgPath + "." + m[2] + m[3] + ")." + m[4]
+		pp := pkgPath
+		if m[2] != "" {
+			if q, ok := pkgPathByName[m[2]]; ok {
+				pp = q
+			}
+		}
+		return "(" + m[1] + pp + "." + m[3] + m[4] + ")." + m[5]
+	}
+	if m := funcKeyRe.FindStringSubmatch(key); m != nil {
+		if q, ok := pkgPathByName[m[1]]; ok {
+			return q + "." + m[2]
+		}
 	}
 	return pkgPath + "." + key
 }
@@ -206,8 +222,10 @@ func (p *Program) srcText(from, to token.Pos) string {
 }
 
 // anchorHit reports whether the cut for the anchored statement is to be taken before instruction i of block b.
-func (p *Program) anchorHit(fn *ssa.Function, anchor string, b *ssa.BasicBlock, i int) bool {
-	key := fn.String() + "|" + anchor
+// With before=false the cut is after the last instruction of the statement, with before=true
+// in front of its first instruction.
+func (p *Program) anchorHit(fn *ssa.Function, anchor string, before bool, b *ssa.BasicBlock, i int) bool {
+	key := fmt.Sprintf("%s|%v|%s", fn.String(), before, anchor)
 	loc, ok := p.anchors[key]
 	if !ok {
 		loc = [2]int{-1, -1}
@@ -234,16 +252,23 @@ func (p *Program) anchorHit(fn *ssa.Function, anchor string, b *ssa.BasicBlock, 
 						if _, isDbg := ins.(*ssa.DebugRef); isDbg {
 							continue
 						}
+						if _, isPhi := ins.(*ssa.Phi); isPhi {
+							continue
+						}
 						ps := ins.Pos()
 						if ps.IsValid() && ps >= stmt.Pos() && ps < stmt.End() {
-							if blk.Index > loc[0] || (blk.Index == loc[0] && k+1 > loc[1]) {
+							if before {
+								if loc[0] < 0 {
+									loc = [2]int{blk.Index, k}
+								}
+							} else if blk.Index > loc[0] || (blk.Index == loc[0] && k+1 > loc[1]) {
 								loc = [2]int{blk.Index, k + 1}
 							}
 						}
 					}
 				}
 				// skip trailing DebugRefs belonging to the statement
-				if loc[0] >= 0 {
+				if loc[0] >= 0 && !before {
 					blk := fn.Blocks[loc[0]]
 					for loc[1] < len(blk.Instrs)-1 {
 						if d, ok := blk.Instrs[loc[1]].(*ssa.DebugRef); ok && d.Pos() >= stmt.Pos() && d.Pos() < stmt.End() {
@@ -260,9 +285,9 @@ func (p *Program) anchorHit(fn *ssa.Function, anchor string, b *ssa.BasicBlock, 
 	return loc[0] == b.Index && loc[1] == i
 }
 
-func (p *Program) anchorExists(fn *ssa.Function, anchor string) bool {
-	p.anchorHit(fn, anchor, fn.Blocks[0], -5)
-	return p.anchors[fn.String()+"|"+anchor][0] >= 0
+func (p *Program) anchorExists(fn *ssa.Function, anchor string, before bool) bool {
+	p.anchorHit(fn, anchor, before, fn.Blocks[0], -5)
+	return p.anchors[fmt.Sprintf("%s|%v|%s", fn.String(), before, anchor)][0] >= 0
 }
 
 func normWS(s string) string { return strings.Join(strings.Fields(s), " ") }
